@@ -29,6 +29,20 @@
                                       variables are plain literals (closure hiding globals) and their bodies are in the
                                       first-order fragment of C04 ([fragc]): capture_sound is discharged there from
                                       CaptureSem.sem_engine / rw_ok_all, both halves of parse_callable.
+     passes_preserve_meaning_no_first   ext, agg AND simplify preserve the value of every query, with no hypothesis about
+                                      the simplifier: C02's whole-algorithm theorem (simplifier_preserves_query_results)
+                                      is composed in.  Its side conditions are required of the query that reaches the
+                                      simplifier, q1 = agg (ext q): [admissible B q1] = well formed (wfq), free of the
+                                      reserved names arg_N (below 0), lambda parameters unknown to the backend as
+                                      function names (bok B), no First (the First push-through is sound for lazy LINQ,
+                                      not for the eager list semantics of [eval]); and [backend_ok B].
+                                      [admissible_is_decided]: a boolean on q1 plus nofun for its finitely many parameters.
+                                      NOT proved: that q1 is admissible whenever the lambda bodies are (that needs wfq /
+                                      reserved-name preservation lemmas for sugar, follow, ext and agg); it is a
+                                      hypothesis on q1, decided by computation in the Examples.
+     fluent_query_end_to_end_no_first / fluent_callables_end_to_end_no_first
+                                      operator_chain_means_direct / captured_literals_chain_means_direct carried
+                                      through all three backend passes: NO component hypothesis left for such chains.
    WHAT IS PROVED RELATIVE TO NAMED HYPOTHESES ABOUT COMPONENT MODELS (each is a statement about a model, not the code)
      query_means_chain                for every chain (callables, typed datasets): relative to
         capture_sound B ops    :  Capture.parse_callable refines the meaning of a lambda under its captured values
@@ -41,14 +55,18 @@
         simp_ok B ops fuel     :  Simplify.simplify preserves values (C02 proves every rewrite rule and alpha-renaming,
                                   not the composition by the fuel-indexed traversal).
      fluent_query_end_to_end          operator_chain_means_direct followed by the three passes, relative to simp_ok only.
-   Backend conventions used: [md_identity] (MetaData(s, d) denotes s), [terminals_ok] (a result terminal denotes the
-   stream it is given).
+     query_passes_no_first            query_means_chain through the three passes: capture_sound and follow_sound remain,
+                                      simp_ok is gone.
+   Backend conventions used: [md_identity] (MetaData(x, d), when it denotes anything, denotes x; it does for a stream),
+   [terminals_ok] (a result terminal denotes the stream it is given).  Both are compatible with C02's [backend_ok]
+   (Example B3_meets_all_backend_hypotheses).
    NOT FORMALISED HERE: "source text + closure snapshot = the Python callable" (C03 / C04's correspondence); floats. *)
 From FA.Base Require Import PyAst Value Eval Traverse.
 From FA.Gen Require Import Tables TablesStream TablesTypes.
 From FA.Model Require Import TypeDefs Pipeline.
 From FA.Model Require Capture Sugar TypeFollow MetaData ExtCalls Aggregate.
-From FA.Proofs Require Import Refine CaptureSem TypeFollowUntyped PipelineFacts PipelineSem PipelineCapture.
+From FA.Proofs Require Import Refine RenameSem SimplifyTotal SimplifyInv SimplifyRules SimplifySound CaptureSem TypeFollowUntyped
+  PipelineFacts PipelineSem PipelineCapture PipelineSimp.
 
 (* ---------------- the backend passes ---------------- *)
 
@@ -159,6 +177,71 @@ Theorem fluent_query_end_to_end :
 Proof. exact end_to_end_x. Qed.
 Print Assumptions fluent_query_end_to_end.
 
+(* ---------------- all three passes, C02's theorem composed in (no hypothesis about the simplifier) ---------------- *)
+
+Theorem passes_preserve_meaning_no_first :
+  forall (B : backend) fuel q q1 q',
+    backend_ok B ->
+    ExtCalls.ops_kw_free ext_default_ops q = true ->
+    Aggregate.agg (ExtCalls.ext q) = Some q1 -> admissible B q1 ->
+    backend_passes fuel q = Some q' ->
+    forall E v, eval B ext_default_ops E q = Some v -> eval B ext_default_ops E q' = Some v.
+Proof. exact passes_sem_no_first. Qed.
+Print Assumptions passes_preserve_meaning_no_first.
+
+(* [admissible] is decided by a boolean on the query plus "the backend knows none of its lambda parameters as a
+   function name" for the finitely many parameters *)
+Theorem admissible_is_decided :
+  forall (B : backend) q1,
+    admissible_b q1 = true -> Forall (nofun B) (idents false q1) -> admissible B q1.
+Proof. exact admissible_decided. Qed.
+Print Assumptions admissible_is_decided.
+
+Theorem fluent_query_end_to_end_no_first :
+  forall (B : backend) (W : world) (fuel : nat),
+    backend_ok B -> md_identity B -> terminals_ok B -> ft_plain (w_ft W) ->
+    forall ch term q q1 q' data r,
+      dataset B data ->
+      plain_chain W TAny ch = true ->
+      query W TAny ch term = POk q ->
+      ExtCalls.ops_kw_free ext_default_ops q = true ->
+      Aggregate.agg (ExtCalls.ext q) = Some q1 -> admissible B q1 ->
+      backend_passes fuel q = Some q' ->
+      direct B ext_default_ops ch data = Some r ->
+      eval B ext_default_ops [] q' = Some (VList r).
+Proof. exact end_to_end_no_first_x. Qed.
+Print Assumptions fluent_query_end_to_end_no_first.
+
+Theorem fluent_callables_end_to_end_no_first :
+  forall (B : backend) (W : world) (fuel : nat),
+    backend_ok B -> md_identity B -> terminals_ok B -> ft_plain (w_ft W) ->
+    forall ch term q q1 q' data r,
+      dataset B data ->
+      lit_chain W TAny ch ->
+      query W TAny ch term = POk q ->
+      ExtCalls.ops_kw_free ext_default_ops q = true ->
+      Aggregate.agg (ExtCalls.ext q) = Some q1 -> admissible B q1 ->
+      backend_passes fuel q = Some q' ->
+      direct B ext_default_ops ch data = Some r ->
+      eval B ext_default_ops [] q' = Some (VList r).
+Proof. exact end_to_end_literals_no_first_x. Qed.
+Print Assumptions fluent_callables_end_to_end_no_first.
+
+Theorem query_passes_no_first :
+  forall (B : backend) (W : world) (fuel : nat),
+    backend_ok B -> md_identity B -> terminals_ok B ->
+    capture_sound B ext_default_ops -> follow_sound B ext_default_ops W ->
+    forall item ch term q q1 q' data r,
+      dataset B data ->
+      query W item ch term = POk q ->
+      ExtCalls.ops_kw_free ext_default_ops q = true ->
+      Aggregate.agg (ExtCalls.ext q) = Some q1 -> admissible B q1 ->
+      backend_passes fuel q = Some q' ->
+      direct B ext_default_ops ch data = Some r ->
+      eval B ext_default_ops [] q' = Some (VList r).
+Proof. exact query_passes_no_first_x. Qed.
+Print Assumptions query_passes_no_first.
+
 (* ---------------- what the tables of object_stream.py make the model emit (pins) ---------------- *)
 
 Example operators_emit :
@@ -234,8 +317,9 @@ Definition r3 : list value := [VTuple [VInt 5; VList [VInt 2]]; VTuple [VInt 9; 
 
 Example B1_meets_backend_hypotheses : md_identity B1 /\ terminals_ok B1 /\ dataset B1 data1 /\ ft_plain (w_ft W0).
 Proof.
-  split; [intros v d kws; reflexivity|]. split; [|split; [reflexivity | exact ft_default_plain]].
-  intros node v args H. unfold terminal_nodes in H. cbn in H.
+  split; [split; [intros v d kws r H; inversion H; reflexivity | intros; reflexivity]|].
+  split; [|split; [reflexivity | exact ft_default_plain]].
+  intros node l args H. unfold terminal_nodes in H. cbn in H.
   repeat (destruct H as [<- | H]; [reflexivity|]). destruct H.
 Qed.
 
@@ -253,6 +337,60 @@ Example chain3_after_passes :
 Proof.
   split; [vm_compute; reflexivity|]. eexists. split; [vm_compute; reflexivity|].
   split; [discriminate | vm_compute; reflexivity].
+Qed.
+
+(* the same chain with every hypothesis of fluent_query_end_to_end_no_first discharged: a backend that meets C02's
+   backend_ok (no meaning for the reserved names arg_N as functions, nor for methods / functions on dictionary
+   records) together with md_identity, terminals_ok and the dataset; the query that reaches the simplifier is
+   admissible; the three passes really rewrite it *)
+Definition B3 : backend :=
+  {| attr_sem := fun _ _ => None;
+     meth_sem := fun _ _ _ _ => None;
+     fun_sem := fun name args _ =>
+       if String.eqb name "EventDataset" then match args with [] => Some (VList data1) | _ => None end
+       else if existsb (String.eqb name) ("MetaData" :: terminal_nodes)
+            then match args with VList l :: _ => Some (VList l) | _ => None end
+            else None |}.
+
+Example B3_meets_all_backend_hypotheses :
+  backend_ok B3 /\ md_identity B3 /\ terminals_ok B3 /\ dataset B3 data1.
+Proof.
+  split.
+  { split; [|split].
+    - intros n. destruct (RulesExamples.arg_name_head n) as [s Hs]. rewrite Hs. split; [reflexivity | intros; reflexivity].
+    - intros; reflexivity.
+    - intros op ks vs rest kws. cbn [B3 fun_sem].
+      repeat match goal with |- context [if ?c then _ else _] => destruct c end; reflexivity. }
+  split; [split; [intros v d kws r H; cbn in H; destruct v; inversion H; reflexivity | intros; reflexivity]|].
+  split; [|reflexivity].
+  intros node l args H. unfold terminal_nodes in H. cbn in H.
+  repeat (destruct H as [<- | H]; [reflexivity|]). destruct H.
+Qed.
+
+Example chain3_through_all_passes :
+  exists q1 q',
+    Aggregate.agg (ExtCalls.ext q3) = Some q1 /\ admissible B3 q1 /\
+    backend_passes 400 q3 = Some q' /\ q' <> q3 /\
+    direct B3 ext_default_ops ch3 data1 = Some r3 /\
+    eval B3 ext_default_ops [] q' = Some (VList r3).
+Proof.
+  eexists. eexists. split; [vm_compute; reflexivity|]. split.
+  { split; [vm_compute; reflexivity|]. split; [|split; [|vm_compute; reflexivity]].
+    - intros n _. destruct (RulesExamples.arg_name_head n) as [s Hs]. rewrite Hs. reflexivity.
+    - intros y Hy. cbn in Hy. rewrite ?orb_false_r in Hy.
+      repeat (apply orb_true_iff in Hy; destruct Hy as [Hy|Hy]); apply String.eqb_eq in Hy; subst y;
+        (split; [reflexivity | intros; reflexivity]). }
+  split; [vm_compute; reflexivity|]. split; [discriminate|]. split; vm_compute; reflexivity.
+Qed.
+
+Example chain3_admissible_by_computation :
+  forall q1, Aggregate.agg (ExtCalls.ext q3) = Some q1 ->
+    admissible_b q1 = true /\ idents false q1 = ["e"; "j"; "j"; "t"; "t"] /\ admissible B3 q1.
+Proof.
+  intros q1 H. vm_compute in H. inversion H; subst q1; clear H.
+  split; [vm_compute; reflexivity|]. split; [vm_compute; reflexivity|].
+  apply admissible_decided; [vm_compute; reflexivity|].
+  repeat (constructor; [split; [reflexivity | intros; reflexivity]|]). constructor.
 Qed.
 
 (* the direct semantics is not the built query in disguise: an operator order that matters *)
@@ -386,7 +524,8 @@ Example typed_chain_runs :
   eval B2 ext_default_ops [] q2 = Some (VList [VInt 18; VInt 9]) /\
   exists q', backend_passes 400 q2 = Some q' /\ eval B2 ext_default_ops [] q' = Some (VList [VInt 18; VInt 9]).
 Proof.
-  split; [intros v d kws; reflexivity|]. split; [reflexivity|]. split; [vm_compute; reflexivity|].
+  split; [split; [intros v d kws r H; inversion H; reflexivity | intros; reflexivity]|].
+  split; [reflexivity|]. split; [vm_compute; reflexivity|].
   eexists. split; vm_compute; reflexivity.
 Qed.
 
